@@ -501,6 +501,62 @@ def validate(batches):
     return verdicts, tot_states
 
 
+def negative_controls(traces):
+    out = []
+    for ev in traces:
+        refs = {(e['a']) for e in ev if e['e'] == 'ref'}
+        # 1. a referenced range variable is never entered
+        for i, e in enumerate(ev):
+            if e['e'] == 'rvar' and e['a'] in refs and e['cols'] != ['*'] \
+                    and sum(1 for x in ev if x['e'] == 'rvar' and x['a'] == e['a']) == 1:
+                out.append(('missing range variable', ev[:i] + ev[i + 1:]))
+                break
+        if len(out) >= 1:
+            break
+    for ev in traces:
+        # 2. a LATERAL sub-select that refers to a left sibling loses LATERAL
+        depth = 0
+        for i, e in enumerate(ev):
+            if e['e'] == 'push' and e['k'] == 'lateral':
+                # find a ref inside this frame to an alias entered before i
+                before = {x['a'] for x in ev[:i] if x['e'] == 'rvar'}
+                d, j = 1, i + 1
+                inner = set()
+                hit = False
+                while j < len(ev) and d > 0:
+                    x = ev[j]
+                    if x['e'] == 'push':
+                        d += 1
+                    elif x['e'] == 'pop':
+                        d -= 1
+                    elif x['e'] == 'rvar':
+                        inner.add(x['a'])
+                    elif x['e'] == 'ref' and x['a'] in before and x['a'] not in inner:
+                        hit = True
+                    j += 1
+                if hit:
+                    ev2 = list(ev)
+                    ev2[i] = dict(e='push', k='nonlateral')
+                    out.append(('LATERAL removed', ev2))
+                    break
+        if len(out) >= 2:
+            break
+    for ev in traces:
+        # 3. a column the sub-select does not produce
+        known = {e['a']: e['cols'] for e in ev if e['e'] == 'rvar' and '*' not in e['cols']}
+        for i, e in enumerate(ev):
+            if e['e'] == 'ref' and e['a'] in known and e['c'] != '*':
+                ev2 = list(ev)
+                ev2[i] = dict(e, c='no_such_column~0')
+                out.append(('unknown column', ev2))
+                break
+        if len(out) >= 3:
+            break
+    if len(out) < 3:
+        raise lib.MachineryError('could not build the negative controls for SqlScope')
+    return out
+
+
 def cross_process_digests(items, cfgs, hashseed):
     """compile in a second interpreter with another hash seed, against the
     SAME schemas (pickled here, loaded there)"""
@@ -562,6 +618,14 @@ def run(tier, seed, rep):
     B = 150
     batches = [[r['events'] for r in ok[i:i + B]] for i in range(0, len(ok), B)]
     verdicts, tlc_states = validate(batches)
+    # negative control (the specification must be able to say no): drop the
+    # first FROM item that is referenced later, make a sub-select lose its
+    # LATERAL, and reference a column the sub-select does not have
+    controls = negative_controls([r['events'] for r in ok])
+    cv, _ = validate([[c for _, c in controls]])
+    for (kind, _), (v, _at) in zip(controls, cv):
+        if v != 'reject':
+            raise lib.MachineryError(f'SqlScope accepted a corrupted trace ({kind})')
     nev = 0
     for r, (v, at) in zip(ok, verdicts):
         nev += len(r['events'])
